@@ -62,7 +62,7 @@ def octet_helpers(modname):
 
 LEAN_TY = {'int': 'Int', 'bool': 'Bool', 'tup': 'Py.Tup', 'tups': 'List Py.Tup', 'fun:tup->tup': '(Py.Tup → Py.M Py.Tup)', 'unit': 'Unit', 'fun:int->unit': '(Int → Py.M Unit)',
            'pairs': 'List (Py.Tup × Py.Tup)', 'pair': '(Py.Tup × Py.Tup)', 'bio': 'Py.BytesIO', 'otup': 'Option Py.Tup', 'obool': 'Option Bool', 'rs': 'Int',
-           'fun:int,int->otup': '(Int → Int → Option Py.Tup)'}
+           'fun:int,int->otup': '(Int → Int → Option Py.Tup)', 'sized': '(Int × Int)'}
 
 
 def find_function(tree, path):
@@ -464,8 +464,18 @@ def tr_expr(cx, env, e):
         return v, 'int', pt + pi + ['let %s ← Py.idx %s %s' % (v, t, i)]
     if isinstance(e, ast.Call):
         f = e.func
+        if (isinstance(f, ast.Attribute) and f.attr == 'setBitLength' and len(e.args) == 1 and not e.keywords
+                and isinstance(f.value, ast.Call) and isinstance(f.value.func, ast.Name) and f.value.func.id == 'SizedInteger'
+                and len(f.value.args) == 1 and not f.value.keywords and 'SizedInteger' not in env):
+            # `SizedInteger(v).setBitLength(n)` (type/univ.py: an int that remembers how many bits it stands for): the pair (v, n)
+            a, ta, pa = tr_expr(cx, env, f.value.args[0])
+            b, tb, pb = tr_expr(cx, env, e.args[0])
+            if (ta, tb) == ('int', 'int'):
+                return '(%s, %s)' % (a, b), 'sized', pa + pb
         if isinstance(f, ast.Name) and f.id == 'len' and len(e.args) == 1:
             a, ta, pa = tr_expr(cx, env, e.args[0])
+            if ta == 'sized':
+                return '(%s).2' % a, 'int', pa
             if ta in ('tups', 'pairs'):
                 return '((%s).length : Int)' % a, 'int', pa
             a, ta, pa = need_tup(cx, a, ta, pa)
@@ -536,12 +546,25 @@ def tr_expr(cx, env, e):
                 cx.self_params[pn] = cx.spec['self'][nm]
                 args.append(pn)
             actual = list(e.args)
-            if e.keywords:
+            fixed_ = info.get('fixed', {})
+            # a parameter of the callee the kernel was translated for one value of (`internalFormat=True`): the call must give
+            # exactly that value, or leave it out where it is the callee's default (checked against its signature: check_callee)
+            kws_ = []
+            for k in e.keywords:
+                if k.arg in fixed_:
+                    if unparse(k.value).strip() != fixed_[k.arg]:
+                        raise Unsupported('call %s gives %s=%s, the kernel %s is translated for %s' % (
+                            unparse(e), k.arg, unparse(k.value), info['kernel'], fixed_[k.arg]))
+                else:
+                    kws_.append(k)
+            if fixed_ or info.get('defaults'):
+                check_callee(info, [k.arg for k in e.keywords])
+            if kws_ or (info.get('params') and len(actual) < len(info['params'])):
                 names_ = info.get('params')
-                if not names_ or any(k.arg not in names_ for k in e.keywords):
+                if not names_ or any(k.arg not in names_ for k in kws_) or len(actual) > len(names_):
                     raise Unsupported('keyword arguments in call %s' % unparse(e))
                 slots = {names_[i]: a for i, a in enumerate(actual)}
-                for k in e.keywords:
+                for k in kws_:
                     slots[k.arg] = k.value
                 for dn_, dv_ in info.get('defaults', {}).items():
                     # a parameter the call leaves to its default (checked against the signature of the callee below)
@@ -589,6 +612,23 @@ def tr_expr(cx, env, e):
                 return a, 'int', pa
         raise Unsupported('call %s' % unparse(e))
     raise Unsupported('expression %s' % unparse(e))
+
+
+def check_callee(info, given):
+    """the defaults a kernel call relies on are the defaults in the callee's signature as it is in the source now"""
+    cal = info.get('callee')
+    if not cal:
+        raise Unsupported('call of kernel %s relies on parameter defaults but names no callee to check them against' % info['kernel'])
+    fn = find_function(ast.parse(open(os.path.join(REPO, cal['file'])).read()), cal['path'])
+    names = [a.arg for a in fn.args.args]
+    dflt = dict(zip(names[len(names) - len(fn.args.defaults):], [unparse(d).strip() for d in fn.args.defaults]))
+    want = dict(info.get('defaults', {}))
+    want.update(info.get('fixed', {}))
+    for nm, val in want.items():
+        if nm in given:
+            continue
+        if dflt.get(nm) != val:
+            raise Unsupported('callee %s: default of %s is %s, the kernel call assumes %s' % ('.'.join(cal['path']), nm, dflt.get(nm), val))
 
 
 def as_bool(a, ta):
@@ -1069,8 +1109,9 @@ def branch_env(cx, env, stmts):
 
 # ---------------------------------------------------------------- kernels
 
-def descend(body, steps):
-    """steps: [[<test source>, 'body' | 'orelse'], ...] - walk into the named branch of the `if` with that test"""
+def descend(body, steps, keep_prefix=False):
+    """steps: [[<test source>, 'body' | 'orelse'], ...] - walk into the named branch of the `if` with that test; with
+    keep_prefix the statements before that `if` stay in front (the straight-line path into the branch)"""
     for test, take in steps:
         found = None
         kind = ast.If
@@ -1082,7 +1123,7 @@ def descend(body, steps):
                 break
         if found is None:
             raise Unsupported('no `%s %s` where the kernel is expected' % ('if' if kind is ast.If else 'while', test))
-        body = list(found.body if take == 'body' else found.orelse)
+        body = (body[:body.index(found)] if keep_prefix else []) + list(found.body if take == 'body' else found.orelse)
     return body
 
 
@@ -1172,7 +1213,7 @@ class OneTurn(ast.NodeTransformer):
 def slice_body(fn, spec):
     body = list(fn.body)
     if 'block' in spec:
-        body = descend(body, spec['block'])
+        body = descend(body, spec['block'], spec.get('block_keep_prefix', False))
     if 'inline_except' in spec:
         # `try: x = cache[k] / except KeyError: <compute x>`: the handler is what computes; the cache is memoisation
         out = []
